@@ -72,7 +72,10 @@ pub mod util {
     pub(crate) fn eprint_err<E: VErr>(error_code: ErrorCode, msg: &str, err: &E)
         requires
             reportable(error_code), //@label eprint_err.perm.reportable C19
+        ensures reported(error_code),
     { unimplemented!() }
+    /// token fact (C19, "if" direction): a problem was handed to the error channel with this code - only eprint_err establishes it
+    pub uninterp spec fn reported(code: ErrorCode) -> bool;
     /// where a duplicate goes: 1 = stdout, 2 = stderr
     pub trait VSink { spec fn sink_id(&self) -> int; }
     impl VSink for std::io::Stderr { open spec fn sink_id(&self) -> int { 2 } }
@@ -109,9 +112,11 @@ pub mod formats {
             requires
                 fmt_ok(*self, record), //@label FormatFunction::call.perm C13
                 super::deferred_now::now_ok(old(now).origin()), //@label FormatFunction::call.same_now C20
-            ensures final(now).origin() == old(now).origin(),
+            ensures final(now).origin() == old(now).origin(), (r is Ok) == fmt_succeeds(*self, record),
         { unimplemented!() }
     }
+    /// oracle: does the format function succeed for the record
+    pub uninterp spec fn fmt_succeeds(f: VFormatFn, record: &Record) -> bool;
 }
 pub mod logger {
     use super::*;
@@ -333,6 +338,12 @@ pub mod multi_writer {
     //@   ens[MultiWriter::write.post.file] r is Ok && self.o_file_writer is Some ==> fw_result(record) is Ok
     //@   ens[MultiWriter::write.post.other] r is Ok && self.o_other_writer is Some ==> ow_result(self.other_id(), record) is Ok
     //@   ens[MultiWriter::write.post.dup] r is Ok && !self.support_capture && dup_allows(self.dup_err_spec(), record_level(record)) ==> super::util::wb_result(self.format_for_stderr, record, 2) is Ok
+    //@   props C19
+    //@   ens[MultiWriter::write.post.format_failure_reported] self.support_capture && ((dup_allows(self.dup_err_spec(), record_level(record)) && !fmt_succeeds(self.format_for_stderr, record)) || (dup_allows(self.dup_out_spec(), record_level(record)) && !fmt_succeeds(self.format_for_stdout, record))) ==> super::util::reported(ErrorCode::Format)
+    //@   closure ~*eprint_err(ErrorCode::Format ## sig |e: std::io::Error| -> (u: ())
+    //@   closure ~*eprint_err(ErrorCode::Format ## req super::util::reportable(ErrorCode::Format)
+    //@   closure ~*eprint_err(ErrorCode::Format ## ens super::util::reported(ErrorCode::Format)
+    //@   props C13
     //@   ens[MultiWriter::write.post.dup_out] r is Ok && !self.support_capture && dup_allows(self.dup_out_spec(), record_level(record)) ==> super::util::wb_result(self.format_for_stdout, record, 1) is Ok
     //@   canary
     //@ fn src/primary_writer/multi_writer.rs impl LogWriter for MultiWriter / fn flush
